@@ -18,8 +18,8 @@ claimed = {
    note=TRUST + " PARTIAL: that FindEncoding returns the row an assembler should choose for the operands is assumed together with the JSON table (A3; the handlers are proved for whatever well-formed row comes back - asmdb.SpecRowOK is a trusted clause); the operand text parser is assumed (A1, A2), the string handed to it (strings.Join) is not checked; table-driven indexing in the handlers is not shown panic-free; 64-bit register names are excluded (A16, recorded finding); three-operand IMUL source forms are not decided. Findings recorded: 64-bit names numbered like 32-bit ones; the five C02 regions; four operand-less regions (multi-byte encodings cut to one byte, missing 66h, mnemonics that need operands, 64-bit-only mnemonics); two 66h regions.",
    design="DESIGN.md section 4, C01"),
  "C03": dict(
-   text="Deductive proofs tying the two independent size computations to one specification each: (a) memory operands - pass 1's CalcOffsetByteSize/CalcSibByteSize and the emitter's calculateModRM are both proved, for every operand and both modes, to produce the number of displacement bytes and the SIB presence given by one SDM-derived size function of the operand (so they agree wherever both proofs hold; six input regions where the current tree disagrees are recorded findings); (b) data directives - processDB/DW/DD/RESB/ALIGNB advance LOC by exactly the number of bytes handleDB/DW/DD/RESB/ALIGNB emit for the values handed over (loop invariants, any list length); (c) jumps - estimateJumpSize/getOffsetSize size classes; (d) the origin reaches code generation unchanged (SetDollarPosition, Pass2.Eval) and `$`/label values are read from the table pass 1 filled (ImmExp.Eval, SetSymbolTable); (e) GetOutputSize is the row's byte count (opcode-length finding recorded); (f) emitter-side instruction length: the handlers' layout.len clauses (sum of prefix, opcode, ModR/M and immediate parts), ResolveOpcode.len, the ModR/M layout clause, one byte for every operand-less table mnemonic.",
-   note=TRUST + " PARTIAL: the summation itself (every label = origin + sum of the sizes of the statements before it) happens in pass1.TraverseAST, which is only used through a trusted frame contract; FindMinOutputSize/GetPrefixSize (prefix bytes) and the per-instruction pass-1 handlers are not under contract (seen end to end, outside every obligation: MUL/DIV/IDIV with an operand are sized from the table by pass 1 and emitted as one byte); the jump size estimate is known to disagree with emission (C04 findings).",
+   text="Deductive proofs tying the two independent size computations to one specification each: (a) memory operands - pass 1's CalcOffsetByteSize/CalcSibByteSize and the emitter's calculateModRM are both proved, for every operand and both modes, to produce the number of displacement bytes and the SIB presence given by one SDM-derived size function of the operand (so they agree wherever both proofs hold; six input regions where the current tree disagrees are recorded findings); (b) data directives - processDB/DW/DD/RESB/ALIGNB advance LOC by exactly the number of bytes handleDB/DW/DD/RESB/ALIGNB emit for the values handed over (loop invariants, any list length); (c) jumps - estimateJumpSize/getOffsetSize size classes; (d) the origin reaches code generation unchanged (SetDollarPosition, Pass2.Eval) and `$`/label values are read from the table pass 1 filled (ImmExp.Eval, SetSymbolTable); (e) GetOutputSize is the row's byte count (opcode-length finding recorded); (f) emitter-side instruction length: the handlers' layout.len clauses (sum of prefix, opcode, ModR/M and immediate parts), ResolveOpcode.len, the ModR/M layout clause, one byte for every operand-less table mnemonic. (g) pass-1 instruction size: FindMinOutputSize is the byte count of the row FindEncoding returns for the same mnemonic and operands plus one byte per prefix Require66h/67h ask for plus CalcOffsetByteSize plus CalcSibByteSize, nothing else (ghost call log); the pass-1 handlers for ADD/ADC/SUB/SBB/CMP/INC/DEC/NEG/MUL/DIV/IDIV, AND/OR/XOR/shifts, NOT, MOV, OUT, IN, PUSH/POP, INT, RET, LGDT and the operand-less mnemonics advance LOC by exactly that size (INT 2 - INT 3 was sized 1, repaired -, RET and operand-less 1, LGDT 3+displacement) for the mode in force and emit one ocode, or leave LOC alone; (h) a label statement stores the location counter under the label's name and does not move it (TraverseAST.ensures.label.*).",
+   note=TRUST + " PARTIAL: the summation over the statements of a program (the loop of TraverseAST over Program.Statements and the dispatch through the handler table) is only used through a trusted frame contract; that pass 1 and the emitter see equal operand objects (parsed twice across the text hop) is assumed; FindMinOutputSize/GetPrefixSize (prefix bytes) and the per-instruction pass-1 handlers are not under contract (seen end to end, outside every obligation: MUL/DIV/IDIV with an operand are sized from the table by pass 1 and emitted as one byte); the jump size estimate is known to disagree with emission (C04 findings).",
    design="DESIGN.md section 4, C03"),
  "C08": dict(
    text="Deductive proof over the real COFF writer. CoffFormat.Write (layout arithmetic with loop invariants for any number of symbols): the symbol table starts at 20+3*40+len(code), the header's symbol count is the number of 18-byte records (main + auxiliary, recursive spec) actually appended, the buffer handed to the file is 140+len(code)+18*count+4+len(strings) bytes long, the string-table size field is len(strings)+4, header values (machine 0x14c, 3 sections, no optional header) and section header values (.text size = code size at offset 140, .data/.bss empty, names) are as specified, exactly one write on success. generateSymbolEntries / convertNameToBytes: fixed symbols and their auxiliary records, every record announces exactly the auxiliary records that follow, user symbols are externals of section 0 or 1, entry count, name fields inline or as a string-table offset that points at the name (data-structure invariant over all keys of the de-duplication map).",
